@@ -29,3 +29,9 @@ mod stack;
 mod utils;
 pub mod value;
 pub mod vm;
+
+/// Verification hook (feature `verif_hooks`): access to the otherwise private scanner.
+#[cfg(feature = "verif_hooks")]
+pub fn verif_scan(source: &str, max: usize) -> Vec<(u8, String, usize, String)> {
+    scanner::verif_scan(source, max)
+}
